@@ -241,7 +241,7 @@ structure Event where
 inductive Err where
   /-- `TemplateLookupException` -/
   | lookup
-  /-- `IndexError` (`adjust_uri("")`) -/
+  /-- `IndexError` of an `adjust_uri` that is partial on `""` (not raised by the current code) -/
   | index
   | attr | type | name
   | fuel
@@ -329,8 +329,10 @@ def Ctx.withLocals (c : Ctx) (d : List (Str × Val)) : Ctx := { c with data := d
 /-! ## URI resolution -/
 
 /-- `_lookup_template(context, uri, relativeto)`: `adjust_uri`, then `get_template`; a `TopLevelLookupException` is
-re-raised as `TemplateLookupException`, the one of `Template.__init__` (invalid URI) passes through; `""` makes
-`adjust_uri` raise `IndexError`. -/
+re-raised as `TemplateLookupException`, the one of `Template.__init__` (invalid URI) passes through.  `adjustUri` is
+total (Props/C07 `adjust_total`: the empty URI takes the relative branch), so the `none` branch below – the `IndexError`
+of an `adjust_uri` that indexes `uri[0]` – is unreachable; it is kept so that the driver reports such a regression of the
+path model as `err:index` instead of hiding it. -/
 def lookupTemplate (S : TSet) (kind : EvKind) (raw : Str) (rel : Option Str) : M (Str × Template) :=
   match adjustUri raw rel with
   | none => throw .index
@@ -850,7 +852,12 @@ def execCode (S : TSet) : Nat → CodeRef → Nat → List (Str × Val) → M Un
             execItems S fuel ⟨r.tu, t, cid, [], none, nsvars, false, siblings, some nsn⟩ items
     | _ => throw .internal
 
-/-- `_include_file(context, uri, calling_uri, **kwargs)` -/
+/-- `_include_file(context, uri, calling_uri, **kwargs)`.
+The two branches of `if S.ieh` at the end are deliberately identical: they mirror the two call sites of the target's render
+callable in the real function (inside `try:` when the template has an `include_error_handler`, whose handler here answers
+false so that the exception propagates unchanged, and the plain call otherwise).  Both pass `ctx`, the context returned by
+`_populate_self_namespace` for the cleaned copy; that this is true of the source is the regenerated fact
+`Generated.NsFlow.includeCallSitesUseCleanContext` (obligation `include_call_sites_obligation` in Props/C07). -/
 def includeFile (S : TSet) : Nat → Nat → EvKind → Str → Option Str → List (Str × Str) → M Unit
   | 0, _, _, _, _, _ => throw .fuel
   | fuel + 1, cid, kind, uri, calling, args => do
